@@ -532,6 +532,28 @@ def r13_every_interface_reached(idx, r):
     r3_hook_unconditional(idx, r)
 
 
+def r14_history_values_not_keys(idx, r):
+    """A history is a mapping (cycle, node) -> value.  Code that wants the values must take them from .values() / .items(); iterating the
+    mapping yields its KEYS, and `key[1]` is a node number, not the value at that step."""
+    ht = idx.modules.get("armi.bookkeeping.historyTracker")
+    n = 0
+    for f in ht.all_funcs():
+        hist = {s_.attr for s_ in iter_stores(f.node) if isinstance(s_.node, ast.Name) and s_.value is not None and isinstance(s_.value, ast.Subscript)
+                and isinstance(s_.value.value, ast.Call) and call_attr(s_.value.value) in ("getHistory",)}
+        for comp in [x for x in ast.walk(f.node) if isinstance(x, (ast.ListComp, ast.GeneratorExp)) or isinstance(x, ast.For)]:
+            gens = comp.generators if not isinstance(comp, ast.For) else [comp]
+            for g in gens:
+                if isinstance(g.iter, ast.Name) and g.iter.id in hist:
+                    n += 1
+                    r.violate(f"{f.qualname}:{g.iter.id}:iterated-as-a-mapping", f, f"`{g.iter.id}` is the history mapping (cycle, node) -> value; iterating it directly yields the time-step keys, so what is returned are node "
+                              "numbers instead of the values recorded at those steps", node=g.iter)
+        if hist:
+            r.ok(f"{f.qualname}:histories-read-through-values-or-items", f)
+            n += 1
+    if n < 1:
+        raise AnchorMissing("historyTracker: a function that post-processes a history mapping")
+
+
 def run(idx, chk):
     chk.explanation = (
         "C06: writers of the successfulCompletion flag and callers that can pass a true value; the chain Case.run -> Operator.__exit__ -> "
@@ -563,3 +585,5 @@ def run(idx, chk):
                  necessary="loading a snapshot returns the state as of that write")
     chk.run_rule("R06.13", "every interface's hook is called at every event whatever earlier interfaces return (the database writes from its hook)", lambda r: r13_every_interface_reached(idx, r), floor=3,
                  necessary="a completed run holds every node plus the end-of-life state")
+    chk.run_rule("R06.14", "history mappings are read through .values()/.items(), never iterated as if they were the values", lambda r: r14_history_values_not_keys(idx, r), floor=1,
+                 necessary="a parameter history returns for each step the value the object had at that step")
